@@ -94,10 +94,11 @@ class Agent(object):
             raise AgentDied('agent exited with status %r during %r' % (self.p.returncode, line[:120]), err)
         return resp.decode().strip()
 
-    def init(self, args, envs):
+    def init(self, args, envs, trim=0):
+        """trim > 0: wasiInit gets argc = len(args) - trim while the array goes on with the remaining strings"""
         def vec(v):
             return '%d %s' % (len(v), ' '.join((x.hex() or '-') for x in v)) if v else '0'
-        return self._send('init %s %s' % (vec(args), vec(envs)))
+        return self._send('init %s %s %d' % (vec(args), vec(envs), trim))
 
     def preopen(self, path):
         r = self._send('preopen ' + path).split()
